@@ -511,8 +511,11 @@ static void ProcessFile(char const* FileName, LongWord Offset) {
                     }
                     case eHexFormatTek:
                         errno = 0;
+                        /* both Tektronix checksums are sums of hex digits, not of bytes */
                         fprintf(TargFile, "/%04X%02X%02X", LoWord(ErgStart), Lo(TransLen),
-                                Lo(Lo(ErgStart) + Hi(ErgStart) + TransLen));
+                                Lo(((ErgStart >> 12) & 15) + ((ErgStart >> 8) & 15)
+                                   + ((ErgStart >> 4) & 15) + (ErgStart & 15)
+                                   + ((TransLen >> 4) & 15) + (TransLen & 15)));
                         ChkIO(TargName);
                         ChkSum = 0;
                         break;
@@ -615,7 +618,11 @@ static void ProcessFile(char const* FileName, LongWord Offset) {
                                 errno = 0;
                                 fprintf(TargFile, "%02X", Lo(Buffer[z]));
                                 ChkIO(TargName);
-                                ChkSum += Buffer[z];
+                                if (ActFormat == eHexFormatTek) {
+                                    ChkSum += (Buffer[z] >> 4) + (Buffer[z] & 15);
+                                } else {
+                                    ChkSum += Buffer[z];
+                                }
                                 SumLen++;
                             }
                         }
